@@ -139,14 +139,14 @@ var daoMutators = map[string]int{ // callee -> index of the key argument
 // governed key classes: symbol identifying the key -> allowed writer functions (with the reason they may write)
 var tokenWriters = map[string]map[string]string{
 	"pkg/core/native.makeAccountKey": {
-		"pkg/core/native.(*nep17TokenNative).updateAccBalance":          "transfer: debits/credits through the token's incBalance callback",
-		"pkg/core/native.(*nep17TokenNative).addTokens":                 "mint/burn: changes a balance together with the total supply",
-		"pkg/core/native.(*NEO).voteInternalUncheckedDeferrable":        "vote: re-stores the same NEO balance with a new VoteTo/LastGasPerVote",
-		"pkg/core/native.(*NEO).VoteInternalDeferrable":                 "vote: re-stores the same NEO balance with a new VoteTo/LastGasPerVote",
-		"pkg/core/native.(*NEO).voteInternalUnchecked":                  "vote: re-stores the same NEO balance with a new VoteTo/LastGasPerVote",
-		"pkg/core/native.(*NEO).VoteInternal":                           "vote: re-stores the same NEO balance with a new VoteTo/LastGasPerVote",
-		"pkg/core/native.(*NEO).RevokeVotesDeferrable":                  "vote revocation of a blocked account",
-		"pkg/core/native.(*NEO).revokeVotes":                            "vote revocation of a blocked account",
+		"pkg/core/native.(*nep17TokenNative).updateAccBalance":   "transfer: debits/credits through the token's incBalance callback",
+		"pkg/core/native.(*nep17TokenNative).addTokens":          "mint/burn: changes a balance together with the total supply",
+		"pkg/core/native.(*NEO).voteInternalUncheckedDeferrable": "vote: re-stores the same NEO balance with a new VoteTo/LastGasPerVote",
+		"pkg/core/native.(*NEO).VoteInternalDeferrable":          "vote: re-stores the same NEO balance with a new VoteTo/LastGasPerVote",
+		"pkg/core/native.(*NEO).voteInternalUnchecked":           "vote: re-stores the same NEO balance with a new VoteTo/LastGasPerVote",
+		"pkg/core/native.(*NEO).VoteInternal":                    "vote: re-stores the same NEO balance with a new VoteTo/LastGasPerVote",
+		"pkg/core/native.(*NEO).RevokeVotesDeferrable":           "vote revocation of a blocked account",
+		"pkg/core/native.(*NEO).revokeVotes":                     "vote revocation of a blocked account",
 	},
 	"pkg/core/native.totalSupplyKey": {
 		"pkg/core/native.(*nep17TokenNative).saveTotalSupply": "the only writer of the total supply; called only from addTokens",
@@ -156,15 +156,15 @@ var tokenWriters = map[string]map[string]string{
 		"pkg/core/native.(*NEO).Initialize":         "genesis: empty counter",
 	},
 	"pkg/core/native.makeValidatorKey": {
-		"pkg/core/native.(*NEO).RegisterCandidateInternal":   "registration",
-		"pkg/core/native.(*NEO).UnregisterCandidateInternal": "unregistration",
-		"pkg/core/native.(*NEO).ModifyAccountVotes":          "votes follow the voter's NEO balance",
-		"pkg/core/native.(*NEO).dropCandidateIfZero":         "drop of an unregistered candidate without votes",
+		"pkg/core/native.(*NEO).RegisterCandidateInternal":       "registration",
+		"pkg/core/native.(*NEO).UnregisterCandidateInternal":     "unregistration",
+		"pkg/core/native.(*NEO).ModifyAccountVotes":              "votes follow the voter's NEO balance",
+		"pkg/core/native.(*NEO).dropCandidateIfZero":             "drop of an unregistered candidate without votes",
 		"pkg/core/native.(*NEO).voteInternalUncheckedDeferrable": "vote bookkeeping",
-		"pkg/core/native.(*NEO).voteInternalUnchecked":       "vote bookkeeping",
-		"pkg/core/native.(*NEO).VoteInternalDeferrable":      "vote bookkeeping",
-		"pkg/core/native.(*NEO).revokeVotes":                 "vote revocation of a blocked account",
-		"pkg/core/native.(*NEO).RevokeVotesDeferrable":       "vote revocation of a blocked account",
+		"pkg/core/native.(*NEO).voteInternalUnchecked":           "vote bookkeeping",
+		"pkg/core/native.(*NEO).VoteInternalDeferrable":          "vote bookkeeping",
+		"pkg/core/native.(*NEO).revokeVotes":                     "vote revocation of a blocked account",
+		"pkg/core/native.(*NEO).RevokeVotesDeferrable":           "vote revocation of a blocked account",
 	},
 	"pkg/core/native.prefixDeposit": {
 		"pkg/core/native.(*Notary).putDepositFor":    "the only writer of a deposit",
